@@ -37,7 +37,7 @@ theorem prod_pos (ds : List Nat) (h : ∀ d ∈ ds, 0 < d) : 0 < prod ds := by
 theorem ravel_unravel (ds : List Nat) (h : ∀ d ∈ ds, 0 < d) (n : Nat) (hn : n < prod ds) :
     ravel ds (unravel ds n) = n := by
   induction ds generalizing n with
-  | nil => simp [prod] at hn; simp [ravel, unravel, hn]
+  | nil => simp [prod] at hn; simp [ravel, hn]
   | cons d ds ih =>
     have hp := prod_pos ds fun x hx => h x (by simp [hx])
     simp only [unravel, ravel]
@@ -100,7 +100,7 @@ def Distinct (es : List Elite) : Prop := es.Pairwise (fun a b => a.index ≠ b.i
 theorem cellObj_cons (e : Elite) (es : List Elite) (i : Nat) :
     cellObj (e :: es) i = if e.index = i then some e.obj else cellObj es i := by
   unfold cellObj
-  by_cases h : e.index = i <;> simp [List.find?_cons, h]
+  by_cases h : e.index = i <;> simp [h]
 
 theorem cellObj_none_iff (es : List Elite) (i : Nat) :
     cellObj es i = none ↔ ∀ e ∈ es, e.index ≠ i := by
@@ -169,7 +169,7 @@ def entry (M : List (List (Option Rat))) (r c : Nat) : Option (Option Rat) :=
 theorem getElem?_range_if (n i : Nat) : (List.range n)[i]? = if i < n then some i else none := by
   by_cases h : i < n
   · simp [h]
-  · simp [h, Nat.le_of_not_lt h]
+  · simp [h]
 
 theorem entry_materialise (rows cols : Nat) (m : Mat) (r c : Nat) :
     entry (materialise rows cols m) r c = if r < rows ∧ c < cols then some (m r c) else none := by
@@ -273,5 +273,73 @@ theorem grid_shape (xd yd : Nat) (es : List Elite) (tr : Bool) :
     (gridColors (xd, yd) es tr).length = (if tr then xd else yd) ∧
     ∀ row ∈ gridColors (xd, yd) es tr, row.length = (if tr then yd else xd) := by
   cases tr <;> simp [gridColors, materialise]
+
+/-! ## 1-D grid heat-map -/
+
+theorem fillCells_eq (key : Nat → Nat) (es : List Elite) (j : Nat) :
+    fillCells key es j = lastBy (fun e => decide (j = key e.index)) es := by
+  unfold fillCells
+  suffices h : ∀ f : Nat → Option Rat, (es.foldl (cellStep key) f) j
+      = (lastBy (fun e => decide (j = key e.index)) es).or (f j) by
+    rw [h]; cases lastBy _ es <;> simp
+  induction es with
+  | nil => intro f; simp [lastBy]
+  | cons e es ih =>
+    intro f
+    rw [List.foldl_cons, ih]
+    simp only [lastBy]
+    cases hl : lastBy (fun e => decide (j = key e.index)) es with
+    | some v => simp
+    | none =>
+      simp only [Option.none_or, cellStep]
+      by_cases hj : j = key e.index <;> simp [hj]
+
+theorem grid1dKey_eq (d i : Nat) : grid1dKey d i = i := by simp [grid1dKey, unravel, prod]
+
+/-- T20.1 (1-D): drawn cell `c` shows the objective of the elite stored under index `c`
+(blank when there is none) — for every number of stored elites, one included (D22) -/
+theorem grid1d_cell_colour (d : Nat) (es : List Elite) (hd : Distinct es) (c : Nat) (hc : c < d) :
+    (grid1dColors d es)[c]? = some (cellObj es c) := by
+  unfold grid1dColors
+  rw [List.getElem?_map, getElem?_range_if]
+  simp only [hc, if_true, Option.map_some]
+  rw [fillCells_eq]
+  congr 1
+  apply lastBy_eq_cellObj _ _ _ hd
+  intro e _
+  simp only [grid1dKey_eq, decide_eq_true_iff]
+  exact eq_comm
+
+/-! ## T20.2 transposition -/
+
+/-- transpose of a `cols × rows` matrix given as a list of rows -/
+def transposeM (rows cols : Nat) (M : List (List (Option Rat))) : List (List (Option Rat)) :=
+  (List.range rows).map (fun r => (List.range cols).map (fun c => (entry M c r).join))
+
+theorem transpose_entry (xd yd : Nat) (es : List Elite) (r c : Nat) :
+    entry (gridColors (xd, yd) es true) r c = entry (gridColors (xd, yd) es false) c r := by
+  simp only [gridColors, if_true, Bool.false_eq_true, if_false, entry_materialise]
+  by_cases h1 : r < xd <;> by_cases h2 : c < yd <;> simp [h1, h2]
+
+/-- T20.2 `transpose_law`: `transpose_measures=True` draws the transposed colour matrix over the
+swapped cell edges inside the swapped axis limits -/
+theorem transpose_law (xd yd : Nat) (es : List Elite) (b0 b1 : List Rat) (lo hi : Rat × Rat) :
+    gridColors (xd, yd) es true = transposeM xd yd (gridColors (xd, yd) es false) ∧
+    gridEdges b0 b1 true = (gridEdges b0 b1 false).swap ∧
+    axLims lo hi true = (axLims lo hi false).swap := by
+  refine ⟨?_, rfl, rfl⟩
+  have key : ∀ r c, r < xd → c < yd →
+      (entry (gridColors (xd, yd) es false) c r).join = fillColors [xd, yd] es c r := by
+    intro r c hr hc
+    simp [gridColors, entry_materialise, hr, hc]
+  unfold transposeM
+  rw [show gridColors (xd, yd) es true
+      = materialise xd yd (fun r c => fillColors [xd, yd] es c r) from by simp [gridColors]]
+  unfold materialise
+  apply List.map_congr_left
+  intro r hr
+  apply List.map_congr_left
+  intro c hc
+  rw [key r c (List.mem_range.mp hr) (List.mem_range.mp hc)]
 
 end Pyribs.C20
